@@ -123,7 +123,14 @@ fn fields_of(prefix: &str, f: &syn::Fields) -> Vec<(String, Ty)> {
 
 fn is_cfg_test(attrs: &[syn::Attribute]) -> bool {
     attrs.iter().any(|a| {
-        a.path().is_ident("cfg") && a.meta.require_list().map(|l| l.tokens.to_string().contains("test")).unwrap_or(false)
+        a.path().is_ident("cfg")
+            && a.meta
+                .require_list()
+                .map(|l| {
+                    let t = l.tokens.to_string();
+                    t.contains("test") && !t.contains("not")
+                })
+                .unwrap_or(false)
     })
 }
 
@@ -191,6 +198,135 @@ pub fn extract(repo: &str) -> Result<Vec<Def>, String> {
     Ok(by_name.into_values().collect())
 }
 
+// ------------------------------------------------------------------------------------------------
+// statics: every `static` item and `thread_local!` block of trustfall_core/src that is compiled
+// outside `#[cfg(test)]`, found by walking the module tree from lib.rs (items inside function
+// bodies and impl blocks included)
+// ------------------------------------------------------------------------------------------------
+#[derive(Debug, Clone)]
+pub struct StaticDef {
+    pub name: String,
+    pub ty: Ty,
+    pub mutable: bool,
+    /// `static`, `thread_local` or the name of an unexpanded macro that declares statics
+    pub kind: String,
+    pub src: String,
+}
+
+struct StaticVisitor<'a> {
+    src: &'a str,
+    out: &'a mut Vec<StaticDef>,
+    /// `mod x;` declarations to follow: (name, explicit #[path])
+    children: Vec<(String, Option<String>)>,
+}
+
+fn has_test_attr(attrs: &[syn::Attribute]) -> bool {
+    is_cfg_test(attrs) || attrs.iter().any(|a| a.path().is_ident("test"))
+}
+
+impl<'ast, 'a> syn::visit::Visit<'ast> for StaticVisitor<'a> {
+    fn visit_item_static(&mut self, i: &'ast syn::ItemStatic) {
+        if has_test_attr(&i.attrs) {
+            return;
+        }
+        self.out.push(StaticDef {
+            name: i.ident.to_string(),
+            ty: convert(&i.ty),
+            mutable: matches!(i.mutability, syn::StaticMutability::Mut(_)),
+            kind: "static".into(),
+            src: self.src.to_string(),
+        });
+        syn::visit::visit_item_static(self, i);
+    }
+    fn visit_item_mod(&mut self, m: &'ast syn::ItemMod) {
+        if has_test_attr(&m.attrs) {
+            return;
+        }
+        if m.content.is_none() {
+            let path = m.attrs.iter().find(|a| a.path().is_ident("path")).and_then(|a| {
+                if let syn::Meta::NameValue(nv) = &a.meta {
+                    if let syn::Expr::Lit(syn::ExprLit { lit: syn::Lit::Str(s), .. }) = &nv.value {
+                        return Some(s.value());
+                    }
+                }
+                None
+            });
+            self.children.push((m.ident.to_string(), path));
+        }
+        syn::visit::visit_item_mod(self, m);
+    }
+    fn visit_item_fn(&mut self, f: &'ast syn::ItemFn) {
+        if !has_test_attr(&f.attrs) {
+            syn::visit::visit_item_fn(self, f);
+        }
+    }
+    fn visit_item_impl(&mut self, f: &'ast syn::ItemImpl) {
+        if !has_test_attr(&f.attrs) {
+            syn::visit::visit_item_impl(self, f);
+        }
+    }
+    fn visit_macro(&mut self, m: &'ast syn::Macro) {
+        let name = m.path.segments.last().map(|s| s.ident.to_string()).unwrap_or_default();
+        if name == "thread_local" || name == "lazy_static" {
+            // the body is not expanded: record the block itself (one entry per `static` keyword)
+            let body = m.tokens.to_string();
+            let n = body.matches("static ").count().max(1);
+            for k in 0..n {
+                self.out.push(StaticDef {
+                    name: format!("{name}#{k}"),
+                    ty: Ty::Other(format!("{name}!")),
+                    mutable: false,
+                    kind: name.clone(),
+                    src: self.src.to_string(),
+                });
+            }
+        }
+        syn::visit::visit_macro(self, m);
+    }
+}
+
+fn walk_module(src_root: &str, rel: &str, out: &mut Vec<StaticDef>) -> Result<(), String> {
+    use syn::visit::Visit;
+    let path = format!("{src_root}/{rel}");
+    let text = std::fs::read_to_string(&path).map_err(|e| format!("{path}: {e}"))?;
+    let file = syn::parse_file(&text).map_err(|e| format!("{path}: {e}"))?;
+    let mut v = StaticVisitor { src: rel, out, children: vec![] };
+    v.visit_file(&file);
+    let children = std::mem::take(&mut v.children);
+    // directory that holds this module's children
+    let p = std::path::Path::new(rel);
+    let stem = p.file_stem().and_then(|s| s.to_str()).unwrap_or("");
+    let parent = p.parent().map(|d| d.to_string_lossy().to_string()).unwrap_or_default();
+    let dir = if stem == "mod" || stem == "lib" || stem == "main" {
+        parent.clone()
+    } else if parent.is_empty() {
+        stem.to_string()
+    } else {
+        format!("{parent}/{stem}")
+    };
+    for (name, explicit) in children {
+        let candidates: Vec<String> = match explicit {
+            Some(pth) => vec![if parent.is_empty() { pth } else { format!("{parent}/{pth}") }],
+            None => {
+                let base = if dir.is_empty() { name.clone() } else { format!("{dir}/{name}") };
+                vec![format!("{base}.rs"), format!("{base}/mod.rs")]
+            }
+        };
+        let Some(found) = candidates.iter().find(|c| std::path::Path::new(&format!("{src_root}/{c}")).exists()) else {
+            return Err(format!("module `{name}` declared in {rel} not found (tried {candidates:?})"));
+        };
+        walk_module(src_root, found, out)?;
+    }
+    Ok(())
+}
+
+pub fn extract_statics(repo: &str) -> Result<Vec<StaticDef>, String> {
+    let mut out = vec![];
+    walk_module(&format!("{repo}/trustfall_core/src"), "lib.rs", &mut out)?;
+    out.sort_by(|a, b| (a.src.as_str(), a.name.as_str()).cmp(&(b.src.as_str(), b.name.as_str())));
+    Ok(out)
+}
+
 fn lean_str(s: &str) -> String {
     format!("\"{}\"", s.replace('\\', "\\\\").replace('"', "\\\""))
 }
@@ -210,14 +346,14 @@ pub fn lean_ty(t: &Ty) -> String {
     }
 }
 
-pub fn render(defs: &[Def]) -> String {
+pub fn render(defs: &[Def], statics: &[StaticDef]) -> String {
     let mut o = String::new();
     o.push_str("/-\nGENERATED — do not edit.  Regenerated on every `./check C24` run (cfg/C24.json `lean_pre`) by\n");
     o.push_str("`harness/src/bin/autotraits_gen.rs` from /repo's current working tree:\n");
     for s in SOURCES {
         let _ = writeln!(o, "  trustfall_core/src/{s}");
     }
-    o.push_str("Every struct / enum / type alias of these files as field type expressions, sorted by name.\n-/\n");
+    o.push_str("Every struct / enum / type alias of these files as field type expressions, sorted by name;\nplus every `static` / `thread_local!` of the whole crate (trustfall_core/src, outside cfg(test)).\n-/\n");
     o.push_str("import TrustfallModel.Model.AutoTraits\n\nnamespace TF.Generated\nopen TF.AutoTraits\n\n");
     for d in defs {
         let _ = writeln!(o, "/-- `{}` {} ({}) -/", d.name, d.kind, d.src);
@@ -243,6 +379,23 @@ pub fn render(defs: &[Def]) -> String {
     for (i, d) in defs.iter().enumerate() {
         let _ = writeln!(o, "  def_{}{}", d.name, if i + 1 < defs.len() { "," } else { "" });
     }
+    o.push_str("]\n\n");
+    o.push_str("/-- Every `static` item / `thread_local!` block of trustfall_core/src compiled outside `#[cfg(test)]`\n(module tree walked from lib.rs, function bodies included), sorted by file and name. -/\n");
+    o.push_str("def statics : List StaticDef := [");
+    for (i, st) in statics.iter().enumerate() {
+        if i > 0 {
+            o.push(',');
+        }
+        let _ = write!(
+            o,
+            "\n  {{ name := {}, kind := {}, mutable := {}, src := {},\n    ty := {} }}",
+            lean_str(&st.name),
+            lean_str(&st.kind),
+            st.mutable,
+            lean_str(&st.src),
+            lean_ty(&st.ty)
+        );
+    }
     o.push_str("]\n\nend TF.Generated\n");
     o
 }
@@ -250,7 +403,8 @@ pub fn render(defs: &[Def]) -> String {
 /// Regenerate the Lean file; rewrites it only when the content changed (keeps Lean's build cache).
 pub fn generate(repo: &str, out: &str) -> Result<usize, String> {
     let defs = extract(repo)?;
-    let text = render(&defs);
+    let statics = extract_statics(repo)?;
+    let text = render(&defs, &statics);
     if let Some(dir) = std::path::Path::new(out).parent() {
         std::fs::create_dir_all(dir).map_err(|e| e.to_string())?;
     }
